@@ -1,3 +1,5 @@
+//go:build !no_c14b
+
 package props
 
 import (
